@@ -85,6 +85,36 @@ Fixpoint get (it : item) (re : pat) : list V :=
   | Node nre _ _ cs => if starts_with re nre then flat_map (fun x => get x re) cs else []
   end.
 
+(* get_mut(regex) followed by a mutation of what it returns: UniqueRegexTreeMap::get_mut pops the last
+   element of the vector; under the unique-id discipline (id = regex) that vector has one element, so
+   mapping every value of the leaf carrying [re] is the same thing *)
+Fixpoint update_at (it : item) (re : pat) (f : V -> V) : item :=
+  match it with
+  | Empty ic => Empty ic
+  | Leaf lre ic c vs => if pat_eqb lre re then Leaf lre ic c (map (fun kv => (fst kv, f (snd kv))) vs) else it
+  | Node nre ic c cs => if starts_with re nre then Node nre ic c (map (fun x => update_at x re f) cs) else it
+  end.
+
+(* iter_mut().for_each: map over every stored value, threading an accumulator (used by cache) *)
+Definition map_values_acc {A} (g : V -> A -> V * A) :=
+  fix go_vs (vs : list (ident * V)) (a : A) : list (ident * V) * A :=
+    match vs with
+    | [] => ([], a)
+    | (k, v) :: vs' => let '(v', a1) := g v a in let '(r, a2) := go_vs vs' a1 in ((k, v') :: r, a2)
+    end.
+Fixpoint map_acc {A} (g : V -> A -> V * A) (it : item) (a : A) {struct it} : item * A :=
+  match it with
+  | Empty ic => (Empty ic, a)
+  | Leaf re ic c vs => let '(vs', a') := map_values_acc g vs a in (Leaf re ic c vs', a')
+  | Node re ic c cs =>
+      let '(cs', a') := (fix go (l : list item) (a : A) : list item * A :=
+                           match l with
+                           | [] => ([], a)
+                           | x :: l' => let '(x', a1) := map_acc g x a in let '(r, a2) := go l' a1 in (x' :: r, a2)
+                           end) cs a in
+      (Node re ic c cs', a')
+  end.
+
 (* ItemIter: every stored value *)
 Fixpoint all_values (it : item) : list V :=
   match it with
